@@ -526,6 +526,14 @@ Proof.
     subst s2. cbn [cat_save run_evs fold_left apply_ev]. sproj. repeat split; try congruence.
 Qed.
 
+(* events that leave the log, the tracker and the transaction flag alone *)
+Definition walinert (e : ev) : bool :=
+  match e with
+  | ECreate _ | EStore _ _ _ | EMsync _ | EGrow _ | EAddTab _ | ECatTrunc | ECatHdr | ECatBody | ECatSync | ECatRename
+  | EMetaW | EMetaSync | EAck => true
+  | _ => false
+  end.
+
 Lemma op_create : forall pw s g t h r hi ri, Inv pw s g -> Shape pw s -> wf_op s (OCreate t h r hi ri) = true ->
   Inv_all pw s g (events s (OCreate t h r hi ri)) /\ Shape pw (step s (OCreate t h r hi ri)).
 Proof.
@@ -566,8 +574,16 @@ Proof.
     { cbn [apply_ev scK]. sproj. rewrite M1. sproj. rewrite M2. unfold wfl. sproj. fold (wfl s). rewrite Hb. split; [right; apply NF; auto | reflexivity]. }
     repeat (apply Inv_all_step; [exact HI | exact I | intros; exact I | clear HI; intros HI]).
     apply Inv_all_nil. exact HI.
-  - unfold step. cbn [events app cat_save run_evs fold_left apply_ev]. sproj. rewrite M1. sproj. rewrite M2. sproj.
-    unfold Shape. sproj. repeat split; assumption.
+  - unfold step, Shape.
+    assert (PR : forall {A} (pi : st -> A),
+               (forall s e, walinert e = true -> pi (apply_ev s e) = pi s) ->
+               pi (run_evs s (events s (OCreate t h r hi ri))) = pi s).
+    { intros A pi H. apply run_pres. intros e He s0. apply H.
+      cbn [events app cat_save] in He. repeat (destruct He as [<- | He]; [reflexivity |]). destruct He. }
+    rewrite (PR _ buf), (PR _ closed_fl), (PR _ closed_du), (PR _ in_txn), (PR _ dirty), (PR _ cur_du), (PR _ cur_fl);
+      try (intros s0 e He; destruct e; try discriminate; cbn [apply_ev]; try reflexivity;
+           match goal with |- context [if ?c then _ else _] => destruct c; reflexivity end).
+    repeat split; assumption.
 Qed.
 
 Lemma op_inv : forall pw s g o,
